@@ -95,6 +95,28 @@ structure MapRange where
   cls : RangeClass
   deriving DecidableEq, Repr
 
+/-! ### accessors of the record types (what the translator's field / mutator tables assume) -/
+
+structure Accessor where
+  recv : String
+  name : String
+  reads : List String          -- fields of the receiver the method reads
+  writes : List String         -- fields of the receiver the method assigns
+  fromParam : Bool             -- the value assigned is the parameter (possibly converted)
+  plain : Bool                 -- no loop, no call other than a conversion
+  deriving DecidableEq, Repr
+
+/-- the field an accessor is named after (`GetX` / `SetX`; `SetMatched` sets `IsMatched`) -/
+def Accessor.field (a : Accessor) : String :=
+  if a.name == "SetMatched" then "IsMatched" else (a.name.drop 3).toString
+
+/-- a getter reads its own field and nothing else and writes nothing; a setter writes its own
+    field, from its parameter, and nothing else -/
+def Accessor.faithful (a : Accessor) : Bool :=
+  a.plain &&
+  (if a.name.startsWith "Get" then a.reads == [a.field] && a.writes == []
+   else a.writes == [a.field] && a.reads == [] && a.fromParam)
+
 /-! ### C15: genesis coverage -/
 
 structure CollectionRow where
